@@ -14,3 +14,20 @@ P.trusted += S.P.trusted
 for t in S.P.tasks:
     if re.match(r"whfast\.[a-z]+\.(default|composition)\.c0\.c2_0\.", t.name):
         P.tasks.append(Task(P, "drifts_add_up." + t.name, t.fn, t.func, files=t.files or S.P.files, timeout=t.timeout))
+
+
+# A single body orbiting a central mass stays on its exact Kepler orbit only if the interaction kick of the Wisdom-Holman
+# splitting adds NOTHING for the star-body pair the Kepler step has already taken care of: the force routines must skip exactly
+# the pairs the integrator's pair filter (gravity_ignore_terms) names -- for active bodies and for test particles, in the basic
+# and in the compensated routine -- and every part1 must set that filter.  The pair-set contracts of C02 are re-registered here.
+from contracts import C02_gravity as G2
+from contracts import C02_modes as M2
+P2 = Pack("C03", sorted(set(G2.P.files) | set(M2.P.files)), "the kick skips exactly the pair the Kepler step solves (shared with C02)")
+PACKS.append(P2)
+P2.assumptions += ["shared with C02: " + a for a in list(G2.P.assumptions) + list(M2.P.assumptions)]
+P2.trusted += G2.P.trusted
+for t in G2.P.tasks:
+    if t.name in ("basic.onebox", "compensated"):
+        P2.tasks.append(Task(P2, "kick_pair_filter." + t.name, t.fn, t.func, files=G2.P.files, timeout=t.timeout, order=t.order, z3_ms=t.z3_ms, polyid_s=t.polyid_s))
+for t in M2.P.tasks:
+    P2.tasks.append(Task(P2, "kick_pair_filter." + t.name, t.fn, t.func, files=t.files or M2.P.files, timeout=t.timeout))
